@@ -88,4 +88,11 @@ UNITS = [
        note="64 bytes of key material (ecmult_gen_blind, nonce function without extra data)"),
     CT("rfc6979_112", "sha256.c", "h_ct_rfc6979", ["secp256k1_rfc6979_hmac_sha256_initialize", "secp256k1_rfc6979_hmac_sha256_generate"], unwind=66, defs=["KEYLEN=112"],
        tier="thorough", note="112 bytes of key material (nonce function with extra data and algo16)"),
+    # --- API level, with declassification points ---
+    CT("sign_inner", "sign.c", "h_ct_sign_inner", ["secp256k1_ecdsa_sign_inner"], unwind=34, min_obl=4,
+       extra_instrument=[["--replace-calls", "nonce_function_rfc6979_impl:ct_stub_rfc6979", "--replace-calls", "secp256k1_ecdsa_sig_sign:ct_stub_sig_sign",
+                          "--replace-calls", "secp256k1_ecmult_gen:ct_stub_ecmult_gen", "--replace-calls", "secp256k1_ge_set_gej:ct_stub_ge_set_gej",
+                          "--replace-calls", "secp256k1_ec_commit_seckey:ct_stub_commit_seckey"]],
+       bounded="retry loop <= 2 attempts",
+       note="two runs, independent secret keys (valid or not), declassified values (nonce bytes/verdicts) equal; sig_sign / rfc6979 / ecmult_gen / ge_set_gej / ec_commit_seckey stubbed; seeded defect C06-1"),
 ]
